@@ -144,3 +144,92 @@ Proof.
   injection E as <-.
   rewrite <- (app_nil_r (nest n)) in E2 at 2. apply nest_reaches in E2. lia.
 Qed.
+
+(* ---- the length bound ---- *)
+Lemma parse_guarded_fetched_le :
+  forall dl T ts d, parse_guarded dl (Some T) ts = Ok d -> consumed dl ts + 1 <= T.
+Proof.
+  intros dl T ts d H. unfold parse_guarded in H. unfold consumed.
+  destruct (parse_expr dl (3 * length ts + 3) 0 ts) as [[[nn m] rest]|e]; [|discriminate].
+  destruct (T <? Z.of_nat (length ts) - Z.of_nat (length rest) + 1) eqn:E; [discriminate|].
+  apply Z.ltb_ge in E. lia.
+Qed.
+
+Lemma parse_guarded_depth :
+  forall dl tl ts d, parse_guarded dl tl ts = Ok d -> parse_depth dl ts = Ok d.
+Proof.
+  intros dl tl ts d H. unfold parse_guarded in H. unfold parse_depth.
+  destruct (parse_expr dl (3 * length ts + 3) 0 ts) as [[[nn m] rest]|e]; [|discriminate].
+  destruct (match tl with Some T => T <? _ | None => false end); [discriminate|]. exact H.
+Qed.
+
+Lemma parse_guarded_both_limits :
+  forall L T ts d, 0 <= L -> parse_guarded (Some L) (Some T) ts = Ok d ->
+    d <= L /\ consumed (Some L) ts + 1 <= T.
+Proof.
+  intros L T ts d HL H. split.
+  - eapply parse_depth_le_limit_proof; [exact HL|]. eapply parse_guarded_depth. exact H.
+  - eapply parse_guarded_fetched_le. exact H.
+Qed.
+
+(* a chain of k operators is accepted without a length bound and wholly consumed: the operator
+   tree, and with it the recursion of compile / calc / the destructor, is as deep as one likes *)
+Lemma parse_tail_op_val limit f d m rest :
+  parse_tail limit (S (S f)) d m (TOp :: TVal :: rest) = parse_tail limit (S f) d (Z.max m d) rest.
+Proof. reflexivity. Qed.
+
+Lemma op_tail_parse :
+  forall k fuel d rest, (2 * k + 1 <= fuel)%nat -> not_op_head rest ->
+    parse_tail None fuel d d (op_tail k ++ rest) = Ok (true, d, rest).
+Proof.
+  induction k as [|k IH]; intros fuel d rest Hf Hr.
+  - destruct fuel as [|f]; [lia|]. cbn [op_tail app]. apply parse_tail_not_op. exact Hr.
+  - destruct fuel as [|[|f]]; try lia.
+    cbn [op_tail app]. rewrite parse_tail_op_val, Z.max_id. apply IH; [lia | exact Hr].
+Qed.
+
+Lemma op_tail_length k : length (op_tail k) = (2 * k)%nat.
+Proof. induction k as [|k IH]; cbn [op_tail length]; lia. Qed.
+
+Lemma chain_parse k :
+  parse_expr None (3 * length (chain k) + 3) 0 (chain k) = Ok (true, 0, []).
+Proof.
+  unfold chain. cbn [length]. rewrite op_tail_length.
+  replace (3 * S (2 * k) + 3)%nat with (S (S (6 * k + 4))) by lia.
+  cbn [parse_expr parse_term].
+  rewrite <- (app_nil_r (op_tail k)). apply op_tail_parse; [lia | exact I].
+Qed.
+
+Lemma chain_accepted_unbounded k :
+  parse_guarded None None (chain k) = Ok 0 /\ consumed None (chain k) = 2 * Z.of_nat k + 1.
+Proof.
+  unfold parse_guarded, consumed. rewrite chain_parse. split; [reflexivity|].
+  unfold chain. cbn [length]. rewrite op_tail_length. lia.
+Qed.
+
+Lemma expression_length_unbounded_proof :
+  forall n : Z, exists ts d, parse_guarded None None ts = Ok d /\ n <= consumed None ts.
+Proof.
+  intros n. exists (chain (Z.to_nat n)), 0.
+  destruct (chain_accepted_unbounded (Z.to_nat n)) as [H1 H2]. split; [exact H1|]. rewrite H2. lia.
+Qed.
+
+(* with the bound T the same chain is rejected as soon as its 2 k + 1 tokens and the
+   end-of-input token exceed T *)
+Lemma chain_rejected_over_limit :
+  forall T k, T < 2 * Z.of_nat k + 2 -> parse_guarded None (Some T) (chain k) = Err EOther.
+Proof.
+  intros T k H. unfold parse_guarded. rewrite chain_parse.
+  unfold chain. cbn [length]. rewrite op_tail_length.
+  replace (T <? Z.of_nat (S (2 * k)) - Z.of_nat 0 + 1) with true; [reflexivity|].
+  symmetry. apply Z.ltb_lt. lia.
+Qed.
+
+Lemma chain_accepted_within_limit :
+  forall T k, 2 * Z.of_nat k + 2 <= T -> parse_guarded None (Some T) (chain k) = Ok 0.
+Proof.
+  intros T k H. unfold parse_guarded. rewrite chain_parse.
+  unfold chain. cbn [length]. rewrite op_tail_length.
+  replace (T <? Z.of_nat (S (2 * k)) - Z.of_nat 0 + 1) with false; [reflexivity|].
+  symmetry. apply Z.ltb_ge. lia.
+Qed.
